@@ -11,6 +11,7 @@ import PyFatModel.Model.Geom
 import PyFatModel.Model.Dir
 import PyFatModel.Model.DirBytes
 import PyFatModel.Model.Names
+import PyFatModel.Model.FatIO
 
 open Model Model.Hex
 
@@ -301,6 +302,12 @@ def volume (args : List String) : String :=
       | some (.cluster c) => s!"ok cluster{c}"
       | none => "ok none"
     | _, _, _, _, _, _, _, _, _, _, _, _ => "bad-op"
+  | ["seekcursor", bpc, fsz, off] =>
+    match bpc.toNat?, fsz.toNat?, off.toNat? with
+    | some bpc, some fsz, some off =>
+      let c := FatIO.seekCursor bpc fsz off
+      s!"ok {c.bpos} {c.cindex} {c.coffpos}"
+    | _, _, _ => "bad-op"
   | ["lfn_make", units, cks] =>
     match parseNatList units, cks.toNat? with
     | some u, some c =>
